@@ -239,7 +239,17 @@ class ElementList(MutableSequence):
         :type child: :class:`Element <hl7apy.core.Element>`
         :param child: an instance of an :class:`Element <hl7apy.core.Element>` subclass
         """
-        if self._can_add_child(child):
+        previous_parent = child.parent
+        if previous_parent != self.element and self.element._is_valid_child(child):
+            # attach the child to the element without going through add(), which would append it at the end
+            child.traversal_parent = None
+            child._parent = self.element
+        try:
+            allowed = self._can_add_child(child)
+        except Exception:
+            child._parent = previous_parent  # the child has been refused
+            raise
+        if allowed:
             try:
                 if by_name_index == -1:
                     self.indexes[child.name].append(child)
@@ -402,7 +412,13 @@ class ElementList(MutableSequence):
             list_index = self.list.index(old_child)
             by_name_index = self.indexes[old_child.name].index(old_child)
             self.remove(old_child)
-            self.insert(list_index, new_child, by_name_index)
+            try:
+                self.insert(list_index, new_child, by_name_index)
+            except Exception:
+                # the new child has been refused: put the old one back where it was
+                self.indexes.setdefault(old_child.name, []).insert(by_name_index, old_child)
+                self.list.insert(list_index, old_child)
+                raise
 
     def create_element(self, name, traversal_parent=False, reference=None):
         """
